@@ -34,6 +34,16 @@ func main() {
 			os.Exit(2)
 		}
 		os.Exit(c(*tier))
+	case "c10child":
+		os.Exit(props.C10Child())
+	case "c10shim":
+		fs := flag.NewFlagSet("c10shim", flag.ExitOnError)
+		tier := fs.String("tier", "quick", "")
+		shard := fs.Int("shard", 0, "")
+		of := fs.Int("of", 1, "")
+		maxdev := fs.Int("maxdev", 1, "")
+		_ = fs.Parse(os.Args[2:])
+		os.Exit(props.C10Shim(*tier, *shard, *of, *maxdev))
 	case "try":
 		os.Exit(props.Try(os.Args[2]))
 	case "replay":
